@@ -125,6 +125,20 @@ def Step.apply : Step → Ctx → Ctx
 
 def prepare (steps : List Step) (c : Ctx) : Ctx := steps.foldl (fun c s => s.apply c) c
 
+/-- As shipped before /repo commit 47bf5ea (finding K03a): `matchAndExtract` stored each parameter right after
+    checking its constraint, so a compiled candidate that failed on a later constraint had already written its
+    earlier parameters — the first 8 into the slots (harmless: the count is not raised) and the rest into the
+    Params map (visible to the handler of the route that finally matches). The repaired code validates every
+    constraint before storing anything: a failed candidate leaves the context untouched. -/
+def failedCandidateAsIs (ps : List KV) (c : Ctx) : Ctx :=
+  go 0 ps c
+where
+  go (i : Nat) : List KV → Ctx → Ctx
+    | [], c => c
+    | (k, v) :: r, c =>
+      go (i + 1) r (if i < 8 then { c with slots := fun j => if j = i then (k, v) else c.slots j }
+                    else { c with params := some (mapSet (c.params.getD []) k v) })
+
 /-- which of the fields that differ between a pooled and a brand-new context have been assigned -/
 structure Assigned where
   router : Bool := false
